@@ -35,7 +35,8 @@ RULE = ('histories of start, kill (processor.kill or promise.kill), re-start, '
         'the same frame, or a release case with a killed waiter.'
         ' Rounds 9-13 added: many sleepers with restarts through the'
         ' lifecycle oracle; bodies raising exceptions that are not'
-        ' Exceptions.')
+        ' Exceptions.'
+        ' Round 14 added: sleepers over hours of game time.')
 ANCHORS = [
     'desper/logic/coroutines.py::CoroutineProcessor.start',
     'desper/logic/coroutines.py::CoroutineProcessor.kill',
